@@ -75,7 +75,7 @@ AskKinds   == {"ask","askT","askJ"}
 TimedKinds == {"tellT","askT"}
 MsgKinds   == {"tell","ask","tellT","askT","askJ"}
 \* askJ = ActorRef::ask_join: the handler spawns a task and replies with its JoinHandle; the asker then awaits the task
-TaskOuts   == {"ok","panic"}
+TaskOuts   == {"ok","panic","abort"}   \* abort = the JoinHandle's task is cancelled (AbortHandle::abort) before it finishes
 
 NoRes == [k |-> "none", phase |-> "", killed |-> FALSE, has |-> FALSE, err |-> "", msg |-> ""]
 
@@ -247,7 +247,9 @@ SendPoll(s, o) ==
 
 \* ask_join, second half: the JoinHandle received as the reply is awaited (actor_ref.rs:934-947)
 JoinPoll(s, o) ==
-  IF s.T[s.O[o].m] = "ok" THEN Done(s, o, "ok", s.O[o].rv) ELSE Done(s, o, "join", 0)
+  \* Error::Join carries tokio's JoinError: "join" = the task panicked, "joinc" = it was cancelled
+  IF s.T[s.O[o].m] = "ok" THEN Done(s, o, "ok", s.O[o].rv)
+  ELSE IF s.T[s.O[o].m] = "abort" THEN Done(s, o, "joinc", 0) ELSE Done(s, o, "join", 0)
 
 ReplyPoll(s, o) ==
   LET op == s.O[o] IN
